@@ -570,7 +570,7 @@ func (e *Eng) siteSets(fr *Frame, kind, name string, st *State, g string, res *V
 			}()
 			v := e.eval(s.SetExpr, env, st, fr.old)
 			e.set(st, "G."+s.SetGhost, srt, v.T, "ghost set at "+name)
-			s.Hits++
+			e.siteHit(s)
 		}()
 	}
 }
@@ -597,7 +597,7 @@ func (e *Eng) siteAsserts(fr *Frame, kind, name string, pos token.Pos, st *State
 			}
 		}
 		t := e.evalClause(s.Clause, env, st, fr.old, fr)
-		s.Hits++
+		e.siteHit(s)
 		e.oblige("site", kind+":"+name+"/"+s.Clause.Label, s.Clause.Props, pos, g, t)
 	}
 }
@@ -819,4 +819,11 @@ func (e *Eng) resolveRegionPattern(p string) []string {
 		return out
 	}
 	return []string{p}
+}
+
+func (e *Eng) siteHit(s *SiteSpec) {
+	if e.siteHits == nil {
+		e.siteHits = map[*SiteSpec]int{}
+	}
+	e.siteHits[s]++
 }
